@@ -623,15 +623,27 @@ func Explore(t *testing.T, r *Run, o *SchedOpts) {
 	} else {
 		// every shard runs the root execution (deterministic) and takes every nsh-th of its
 		// first-level alternatives; alternatives are generated one at a time (no frontier list)
+		// ... and of the alternatives below each first-level execution (second level), which
+		// balances the shards much better; every shard re-runs the (few) first-level
+		// executions to enumerate their alternatives, only the owner counts them.
 		sh, _ := r.Shard()
 		x := runOne(t, o, nil, false)
 		handle(x, sh == 0)
-		k := 0
-		alternatives(x, 0, func(np []int) {
-			if k%nsh == sh {
-				explore(np)
+		k1, k2 := 0, 0
+		alternatives(x, 0, func(np1 []int) {
+			owner := k1%nsh == sh
+			k1++
+			if !budget() {
+				return
 			}
-			k++
+			y := runOne(t, o, np1, false)
+			handle(y, owner)
+			alternatives(y, len(np1), func(np2 []int) {
+				if k2%nsh == sh {
+					explore(np2)
+				}
+				k2++
+			})
 		})
 	}
 	r.Add("max_points_"+o.Name, 0)
